@@ -135,6 +135,7 @@ func verbLevelIn(name string, levels map[string]int64) string {
 
 func checkC01(c *Ctx) {
 	r := c.R
+	r.Rule("R03.1", "(shared with C03) an admitted call produces output: the destination selected for a severity is never an empty per-level list while the documented routing names another (the routing decision function equals the documented one)")
 	r.Rule("R17.3", "(shared with C17) a refused registration leaves the level tables untouched")
 	r.Rule("R17.4", "(shared with C17) a successful registration records the treated-as level for EVERY level value given (including the zero value PanicLevel), so that the admission rule gates the new level as the level it is treated as")
 	r.Rule("R01.1", "gate dominance: every static call path from a public entry point to the Write on the selected destination crosses the admitting edge of an Entry.Enabled/EnabledContext test on the emitting logger with the very level value passed on as the record's severity (Verbose in a `verbose` build is the documented exemption; WriteThru/WriteInternal are adapter plumbing judged under C15)")
@@ -162,6 +163,7 @@ func checkC01(c *Ctx) {
 		c01SingleRule(c, p, m)
 		c01Verbs(c, p, m, tags)
 		c01DebugMode(c, p)
+		c03Routing(c, p, m)
 		c17Register(c, p, m)
 	}
 	c.Floor["R01.1"] = 58
